@@ -210,6 +210,7 @@ static void put_result (FILE *f, const eav_result_t *r)
 #ifdef HAVE_IDNKIT
 static idn_resconf_t g_ctx;
 extern long verif_resconf_created, verif_resconf_destroyed, verif_resconf_live, verif_resconf_bad_destroy;
+extern int verif_resconf_fail_next;
 static eav_result_t *email6531 (const char *e, size_t l, bool t) { return is_6531_email (g_ctx, IDN_ENCODE_REGIST, e, l, t); }
 static int utf8dom (int *r, const char *s, const char *e, bool t) { return is_utf8_domain (g_ctx, IDN_ENCODE_REGIST, r, s, e, t); }
 #define BACKEND "idnkit"
@@ -298,6 +299,11 @@ static void run_history (FILE *out, char *script)
         case 's': fprintf (out, "s%d", eav_setup (eav)); break;
         case 'm': fputc ('m', out); putmsg (out, eav_errstr (eav)); break;
         case 'f': eav_free (eav); fputc ('f', out); break;
+        case 'y':           /* idnkit: the next idn_resconf_create fails (no effect in the other back ends: they create nothing) */
+#ifdef HAVE_IDNKIT
+            verif_resconf_fail_next = 1;
+#endif
+            fputc ('y', out); break;
         case 'v': fputc ('v', out); if (eav->result) put_result (out, eav->result); else fputc ('-', out); break;   /* the record the object holds now */
         case 'x': {
             inject_rc = atoi (op + 1);
